@@ -105,6 +105,7 @@ def declare(U, data_sort=ANY, with_size=True):
     m.ensures("result == len(self.s)", "len=number-of-elements")
 
     m = L.method("iter_nodes", {}, yields=RefS(NODE), locals={"node": RefS(NODE)})
+    m.reads("DoublyLinkedList.head", NODE + ".next_node")      # a live walk: it keeps reading the links
     m.ghost_entry("g_p = 0")
     lp = m.loop(1)
     lp.invariant("0 <= g_p and g_p <= len(self.s)")
@@ -115,6 +116,7 @@ def declare(U, data_sort=ANY, with_size=True):
     m.ensures("yielded == self.s", "forward-traversal=reference-sequence")
 
     m = L.method("__iter__", {}, yields=data_sort)
+    m.reads("DoublyLinkedList.head", NODE + ".next_node", NODE + ".data")
     lp = m.loop(1)
     lp.invariant("len(yielded) == _i1 and forall(t, 0, _i1, yielded[t] == self.s[t].data, trigger=yielded[t])")
     lp.invariant("_seq1 == self.s")
@@ -138,6 +140,7 @@ def declare(U, data_sort=ANY, with_size=True):
     m.modifies("self.head", "self.tail", "self.size", "self.s", "self.pos", NODE + ".next_node[*]", NODE + ".prev_node[*]")
     ghost_reinsert(m, "0")
     m.ensures("self.s == " + moved("0"), "s'=[node]+(s-without-node)")
+    m.ensures("forall(n, implies(old(inlist(self, n)), inlist(self, n)))", "same-node-set")
 
     m = L.method("move_to_back", {"node": RefS(NODE)})
     m.requires("inlist(self, node)", "node-belongs-to-the-list")
@@ -145,6 +148,7 @@ def declare(U, data_sort=ANY, with_size=True):
     m.modifies("self.head", "self.tail", "self.size", "self.s", "self.pos", NODE + ".next_node[*]", NODE + ".prev_node[*]")
     ghost_reinsert(m, "(old(len(self.s)) - 1)")
     m.ensures("self.s == " + moved("old(len(self.s)) - 1"), "s'=(s-without-node)+[node]")
+    m.ensures("forall(n, implies(old(inlist(self, n)), inlist(self, n)))", "same-node-set")
 
     m = L.method("move_after", {"node": RefS(NODE), "after": RefS(NODE)})
     m.requires("inlist(self, node) and inlist(self, after)", "both-nodes-belong-to-the-list")
@@ -153,6 +157,8 @@ def declare(U, data_sort=ANY, with_size=True):
     ghost_reinsert(m, j)
     m.ensures("implies(node == after, self.s == old(self.s))", "node-is-after:unchanged")
     m.ensures("implies(node != after, self.s == %s)" % moved(j), "s'=node-directly-after-`after`")
+    m.ensures("forall(n, implies(old(inlist(self, n)), inlist(self, n)))", "same-node-set")
+    m.ensures("len(self.s) == old(len(self.s))")
 
     m = L.method("rotate", {"front_to_back": BOOL})
     m.modifies("self.head", "self.tail", "self.s", "self.pos", NODE + ".next_node[*]", NODE + ".prev_node[*]")
